@@ -102,6 +102,7 @@ type env struct {
 	opaqueResult func(callee *ssa.Function) bool // calls whose result is kept opaque (not inlined)
 	facts        map[ssa.Value]bool              // string value -> known empty (true) / known non-empty (false)
 	rewriting    map[ssa.Value]bool
+	override     map[ssa.Value]Val // values fixed for one evaluation (the element of a list at one position)
 }
 
 type Evaluator struct {
@@ -236,6 +237,11 @@ func (x *Evaluator) eval(v ssa.Value, e *env) Val {
 type selfRef struct{ phi ssa.Value }
 
 func (x *Evaluator) evalC(v ssa.Value, e *env, c *evalCtx) Val {
+	if e.override != nil {
+		if ov, ok := e.override[v]; ok {
+			return ov
+		}
+	}
 	if m, ok := e.memo[v]; ok && len(c.busy) == 0 {
 		return m
 	}
@@ -618,6 +624,9 @@ func (x *Evaluator) evalPhi(v *ssa.Phi, e *env, c *evalCtx) Val {
 		return IntV{Origin: "idx:" + strings.TrimSpace(v.Comment)}
 	}
 	if _, ok := v.Type().Underlying().(*types.Slice); ok {
+		if lv, ok := x.mapLoop(v, e, c); ok {
+			return lv
+		}
 		return x.listPhi(v, vals)
 	}
 	// a struct chosen by a branch: keep every option (method calls are evaluated per option)
@@ -897,6 +906,7 @@ func joinVals(vs []Val) Val {
 		return nil
 	}
 	var ts []Tmpl
+	var live []Val
 	for _, v := range vs {
 		if _, ok := v.(selfRef); ok {
 			continue
@@ -905,9 +915,34 @@ func joinVals(vs []Val) Val {
 			continue
 		}
 		ts = append(ts, asTmpl(v))
+		live = append(live, v)
 	}
 	if len(ts) == 0 {
 		return nil
+	}
+	// values that are not text (nodes handed in from outside) stay what they are
+	if _, opaque := live[0].(OpaqueV); opaque {
+		all := true
+		for _, v := range live {
+			if _, ok := v.(OpaqueV); !ok {
+				all = false
+			}
+		}
+		if all {
+			var opts []Val
+			seen := map[string]bool{}
+			for _, v := range live {
+				k := v.(OpaqueV).Origin
+				if !seen[k] {
+					seen[k] = true
+					opts = append(opts, v)
+				}
+			}
+			if len(opts) == 1 {
+				return opts[0]
+			}
+			return ChoiceV{Opts: opts}
+		}
 	}
 	return strV(mkAlt("", ts...))
 }
@@ -1325,6 +1360,15 @@ func (x *Evaluator) evalElemRead(a *ssa.IndexAddr, t types.Type, e *env, c *eval
 		return x.symbolic(t, l.Origin+"[*]")
 	}
 	if len(l.Prefix) > 0 {
+		// a position known from the index or from the tests that dominate the read
+		lo, hi, known := indexRange(a.Index, a.Block())
+		p := int64(len(l.Prefix))
+		switch {
+		case known && lo == hi && lo >= 0 && lo < p:
+			return l.Prefix[lo]
+		case known && lo >= p && l.Elem != nil:
+			return l.Elem
+		}
 		return joinValsOr(l.uniform(), x.symbolic(t, "elem"))
 	}
 	// one particular element of a handed list (vars[0]) is not "the current element" (vars[*])
@@ -1372,7 +1416,118 @@ func (x *Evaluator) evalSlice(v *ssa.Slice, e *env, c *evalCtx) Val {
 	if v.Low == nil && v.High == nil {
 		return x.evalC(v.X, e, c)
 	}
-	return x.evalC(v.X, e, c)
+	base := x.evalC(v.X, e, c)
+	// xs[k:] of a list with known leading elements: they are dropped, the tail stays
+	if l, ok := base.(ListV); ok && v.High == nil && !l.IsFinite && len(l.Prefix) > 0 {
+		if k, ok := v.Low.(*ssa.Const); ok && k.Value != nil && k.Value.Kind() == constant.Int {
+			n, _ := constant.Int64Val(k.Value)
+			if n >= 0 && int(n) <= len(l.Prefix) {
+				return ListV{Prefix: append([]Val{}, l.Prefix[n:]...), Elem: l.Elem, Origin: l.Origin}
+			}
+		}
+	}
+	if l, ok := base.(ListV); ok && v.High == nil && l.IsFinite {
+		if k, ok := v.Low.(*ssa.Const); ok && k.Value != nil && k.Value.Kind() == constant.Int {
+			n, _ := constant.Int64Val(k.Value)
+			if n >= 0 && int(n) <= len(l.Finite) {
+				return ListV{Finite: append([]Val{}, l.Finite[n:]...), IsFinite: true, Origin: l.Origin}
+			}
+		}
+	}
+	return base
+}
+
+// indexRange: bounds of an index known from its own shape (a constant, a range index) and
+// from comparisons with constants that dominate the block.
+func indexRange(idx ssa.Value, blk *ssa.BasicBlock) (lo, hi int64, known bool) {
+	const inf = int64(1) << 40
+	lo, hi = -inf, inf
+	if k, ok := idx.(*ssa.Const); ok && k.Value != nil && k.Value.Kind() == constant.Int {
+		n, _ := constant.Int64Val(k.Value)
+		return n, n, true
+	}
+	if bo, ok := idx.(*ssa.BinOp); ok && bo.Op == token.ADD {
+		if ph, ok := bo.X.(*ssa.Phi); ok && strings.TrimSpace(ph.Comment) == "rangeindex" {
+			lo = 0
+		}
+	}
+	for d := blk; d != nil; d = d.Idom() {
+		parent := d.Idom()
+		if parent == nil || len(parent.Instrs) == 0 || len(parent.Succs) != 2 {
+			continue
+		}
+		ifi, ok := parent.Instrs[len(parent.Instrs)-1].(*ssa.If)
+		if !ok {
+			continue
+		}
+		cond := ifi.Cond
+		neg := false
+		for {
+			u, ok := cond.(*ssa.UnOp)
+			if !ok || u.Op != token.NOT {
+				break
+			}
+			cond, neg = u.X, !neg
+		}
+		cmp, ok := cond.(*ssa.BinOp)
+		if !ok || cmp.X != idx {
+			continue
+		}
+		k, ok := cmp.Y.(*ssa.Const)
+		if !ok || k.Value == nil || k.Value.Kind() != constant.Int {
+			continue
+		}
+		n, _ := constant.Int64Val(k.Value)
+		for side := 0; side < 2; side++ {
+			s := parent.Succs[side]
+			if !(len(s.Preds) == 1 && (s == blk || s.Dominates(blk))) || parent.Succs[0] == parent.Succs[1] {
+				continue
+			}
+			holds := (side == 0) != neg
+			op := cmp.Op
+			if !holds {
+				switch op {
+				case token.GTR:
+					op = token.LEQ
+				case token.GEQ:
+					op = token.LSS
+				case token.LSS:
+					op = token.GEQ
+				case token.LEQ:
+					op = token.GTR
+				case token.EQL:
+					op = token.NEQ
+				case token.NEQ:
+					op = token.EQL
+				}
+			}
+			switch op {
+			case token.GTR:
+				if n+1 > lo {
+					lo = n + 1
+				}
+			case token.GEQ:
+				if n > lo {
+					lo = n
+				}
+			case token.LSS:
+				if n-1 < hi {
+					hi = n - 1
+				}
+			case token.LEQ:
+				if n < hi {
+					hi = n
+				}
+			case token.EQL:
+				lo, hi = n, n
+			case token.NEQ:
+				if n == lo {
+					lo = n + 1
+				}
+			}
+		}
+	}
+	return lo, hi, lo > -inf || hi < inf
 }
 
 func (x *Evaluator) evalBinOp(v *ssa.BinOp, e *env, c *evalCtx) Val {
@@ -1823,4 +1978,111 @@ func (x *Evaluator) globalMapLiteral(g *ssa.Global) (Val, bool) {
 	x.mapLits[g] = val
 	x.mapLitOK[g] = ok
 	return val, ok
+}
+
+// mapLoop: v is the list a range loop over another list L builds with exactly one append per
+// iteration (out = append(out, g(L[i]))). Where L has known leading elements, so has the
+// result: g is evaluated once for each of them and once for the rest.
+func (x *Evaluator) mapLoop(v *ssa.Phi, e *env, c *evalCtx) (Val, bool) {
+	hdr := v.Block()
+	L := rangedList(hdr)
+	if L == nil || len(v.Edges) != len(hdr.Preds) {
+		return nil, false
+	}
+	body := loopBody(hdr)
+	var init, back ssa.Value
+	for i, p := range hdr.Preds {
+		if body[p] {
+			if back != nil && back != v.Edges[i] {
+				return nil, false
+			}
+			back = v.Edges[i]
+		} else {
+			if init != nil && init != v.Edges[i] {
+				return nil, false
+			}
+			init = v.Edges[i]
+		}
+	}
+	if init == nil || back == nil {
+		return nil, false
+	}
+	ap, ok := back.(*ssa.Call)
+	if !ok {
+		return nil, false
+	}
+	if bi, ok := ap.Call.Value.(*ssa.Builtin); !ok || bi.Name() != "append" || len(ap.Call.Args) != 2 || ap.Call.Args[0] != ssa.Value(v) {
+		return nil, false
+	}
+	if n, ok := literalCount(ap.Call.Args[1]); !ok || n != 1 {
+		return nil, false
+	}
+	var elemExpr ssa.Value
+	for _, ref := range *ap.Call.Args[1].(*ssa.Slice).X.(*ssa.Alloc).Referrers() {
+		if ia, ok := ref.(*ssa.IndexAddr); ok {
+			for _, r2 := range *ia.Referrers() {
+				if st, ok := r2.(*ssa.Store); ok && st.Addr == ssa.Value(ia) {
+					elemExpr = st.Val
+				}
+			}
+		}
+	}
+	if elemExpr == nil {
+		return nil, false
+	}
+	src, ok := x.evalC(L, e, c).(ListV)
+	if !ok || (len(src.Prefix) == 0 && !src.IsFinite) {
+		return nil, false
+	}
+	start, ok := x.evalC(init, e, c).(ListV)
+	if !ok || !start.IsFinite {
+		return nil, false
+	}
+	// the values that read "the current element" of L inside the loop
+	var elemVals []ssa.Value
+	for b := range body {
+		for _, ins := range b.Instrs {
+			switch r := ins.(type) {
+			case *ssa.UnOp:
+				if ia, ok := r.X.(*ssa.IndexAddr); ok && ia.X == L && rangeIndexOf(ia.Index) == hdr {
+					elemVals = append(elemVals, r)
+				}
+			case *ssa.Index:
+				if r.X == L && rangeIndexOf(r.Index) == hdr {
+					elemVals = append(elemVals, r)
+				}
+			}
+		}
+	}
+	if len(elemVals) == 0 {
+		return nil, false
+	}
+	at := func(el Val) Val {
+		ne := *e
+		ne.memo = map[ssa.Value]Val{}
+		ne.override = map[ssa.Value]Val{}
+		for k, ov := range e.override {
+			ne.override[k] = ov
+		}
+		for _, ev := range elemVals {
+			ne.override[ev] = el
+		}
+		return x.evalC(elemExpr, &ne, c)
+	}
+	known := src.Prefix
+	if src.IsFinite {
+		known = src.Finite
+	}
+	outs := append([]Val{}, start.Finite...)
+	for _, el := range known {
+		outs = append(outs, at(el))
+	}
+	if src.IsFinite {
+		return ListV{Finite: outs, IsFinite: true, Origin: "appended"}, true
+	}
+	var rest Val
+	if src.Elem != nil {
+		rest = at(src.Elem)
+	}
+	return ListV{Prefix: outs, Elem: rest, Origin: "appended"}, true
 }
